@@ -27,8 +27,9 @@ def jobs(tier):
             cfg = dict(n=4, r=2, guard=None, bound=None)
             if "vector" in e.tags and be not in CAT20.VECTORS:
                 continue
-            if ("pad" in e.tags or "ggh" in e.tags) and be != "zkinterface":
-                continue
+            if "pad" in e.tags and be != "zkinterface":
+                continue            # padding does not depend on the field; the subset-sum coefficients do (rejection sampling
+                                    # at the prime's bit length), so "ggh" runs under every field
             if "wires" in e.tags:
                 js.append(dict(base, name="%s/%s/witness" % (e.name, be), analysis="witness", cfg=dict(cfg)))
                 js.append(dict(base, name="%s/%s/wire" % (e.name, be), analysis="wire", cfg=dict(cfg)))
@@ -36,6 +37,10 @@ def jobs(tier):
                 js.append(dict(base, name="%s/%s" % (e.name, be), analysis="obs", cfg=dict(cfg)))
     # the third field: reference equality of the permutation only (quick)
     if tier == "quick":
+        for e in CAT20.build(4, tier):
+            if "ggh" in e.tags:
+                js.append(dict(entry=e.name, backend=BACKENDS[2], tier=tier, pid=PID, catalogue="checks.cat_c20", weight=1,
+                               name="%s/%s" % (e.name, BACKENDS[2]), analysis="obs", cfg=dict(n=4, r=2, guard=None, bound=None)))
         js.append(dict(entry="perm_ref", backend=BACKENDS[2], tier=tier, pid=PID, catalogue="checks.cat_c20", weight=3,
                        name="perm_ref/%s" % BACKENDS[2], analysis="obs", cfg=dict(n=4, r=2, guard=None, bound=None), job_timeout=600))
     return js
